@@ -114,6 +114,21 @@ Definition hexdigit (v : N) : N := if v <? 10 then 48 + v else 87 + v.
 Definition hex_encode (h : bytes) : bytes := flat_map (fun b => [hexdigit (b / 16); hexdigit (b mod 16)]) h.
 Definition magnet_of (h params : bytes) : bytes := ascii_bytes "magnet:?xt=urn:btih:" ++ hex_encode h ++ params.
 
+(* ... and the base32 form of the same link (RFC 4648, five bytes to eight characters) *)
+Definition b32char (v : N) : N := if v <? 26 then 65 + v else 24 + v.
+Definition enc_group (b0 b1 b2 b3 b4 : N) : bytes :=
+  let v := (((b0 * 256 + b1) * 256 + b2) * 256 + b3) * 256 + b4 in
+  let v1 := v / 32 in let v2 := v1 / 32 in let v3 := v2 / 32 in let v4 := v3 / 32 in
+  let v5 := v4 / 32 in let v6 := v5 / 32 in let v7 := v6 / 32 in
+  [ b32char (v7 mod 32); b32char (v6 mod 32); b32char (v5 mod 32); b32char (v4 mod 32);
+    b32char (v3 mod 32); b32char (v2 mod 32); b32char (v1 mod 32); b32char (v mod 32) ].
+Fixpoint b32_encode (bs : bytes) : bytes :=
+  match bs with
+  | b0 :: b1 :: b2 :: b3 :: b4 :: r => enc_group b0 b1 b2 b3 b4 ++ b32_encode r
+  | _ => []
+  end.
+Definition magnet_of_b32 (h params : bytes) : bytes := ascii_bytes "magnet:?xt=urn:btih:" ++ b32_encode h ++ params.
+
 (* the shapes on which net/url is specified here: letters, digits and : ? = & . / - only, and no
    path or authority part (what follows the scheme does not begin with '/') *)
 Definition magnet_shape (m : bytes) : bool :=
